@@ -29,6 +29,40 @@ Theorem registry_total : forall reg, wf_core reg ->
   match finalize reg with Ok _ => True | Err ECrossRootCycle => True | Err ERename => True | _ => False end.
 Proof. exact RegistryProofs.registry_total. Qed.
 
+(* ---- several manifests (cmd.RegisterManifests: the input types of EVERY manifest first, then the dependency copies,
+        leniently): a type is filed under the package root of the manifest that OWNS it (lists it in inputDataTypes), with
+        the references the owner declared - whatever copies other manifests carry in dependencyDataTypes and in whatever
+        order the manifests were read (a dependency manifest read early cannot plant its copies first). *)
+Theorem owner_wins : forall init ms reg m d,
+  register_inputs_then_deps init ms = Ok reg -> In m ms -> In d (m_inputs m) ->
+  lookup reg (d_id d) = Some (entry_of (m_root m) d).
+Proof. exact RegistryProofs.owner_wins. Qed.
+
+(* registration of a schema set in which every type has ONE owner cannot fail ... *)
+Theorem registration_total : forall init ms,
+  NoDup (map e_id (init ++ input_entries ms)) -> exists reg, register_inputs_then_deps init ms = Ok reg.
+Proof. exact RegistryProofs.registration_total. Qed.
+
+(* ... in any order of the manifests, and every owned type is filed the same way in all of them *)
+Theorem registration_order_independent : forall init ms ms',
+  NoDup (map e_id (init ++ input_entries ms)) -> Permutation ms ms' ->
+  exists reg reg',
+    register_inputs_then_deps init ms = Ok reg /\ register_inputs_then_deps init ms' = Ok reg' /\
+    forall m d, In m ms -> In d (m_inputs m) ->
+      lookup reg (d_id d) = Some (entry_of (m_root m) d) /\ lookup reg' (d_id d) = Some (entry_of (m_root m) d).
+Proof. exact RegistryProofs.registration_order_independent. Qed.
+
+(* non-vacuity: beta owns b.M, alpha carries a copy of it and is read FIRST - b.M is still filed under beta's root *)
+Example owner_wins_nonvacuous :
+  let money := mkId [x4d] [x62] in let cart := mkId [x43] [x61] in
+  let alpha := mkManifest [x41] [mkDecl cart [money]] [mkDecl money []] in
+  let beta := mkManifest [x42] [mkDecl money []] [] in
+  match register_inputs_then_deps [] [alpha; beta] with
+  | Ok reg => option_map e_root (lookup reg money) = Some [x42] /\ option_map e_root (lookup reg cart) = Some [x41]
+  | _ => False
+  end.
+Proof. exact RegistryProofs.owner_wins_nonvacuous. Qed.
+
 (* ---- the full statements of the registry properties, as DESIGN.md states them.  Three of them are FALSE of the
         faithful model of the current code (and of the code: the witnesses are replayed on the real generator).      *)
 Definition full_statement_order_independent : Prop :=
@@ -97,6 +131,9 @@ Proof. vm_compute. split; reflexivity. Qed.
 Print Assumptions exported_identifier_valid.
 Print Assumptions modelled_regexes_unchanged.
 Print Assumptions registry_total.
+Print Assumptions owner_wins.
+Print Assumptions registration_total.
+Print Assumptions registration_order_independent.
 Print Assumptions acyclic_input_untouched.
 Print Assumptions duplicates_only_in_conflict_resolution.
 Print Assumptions registry_order_independent_refuted.
